@@ -14,7 +14,12 @@ VARIANTS = [
     V('sync-reads-wrong-side', F, ("rotation, transformation =  mr.TransToRp(self.TM)", "rotation, transformation =  mr.TransToRp(TAAtoTM_helper(self.TAA))"), 'fire', 'tm.TMtoTAA'),
     V('external-poke', H, ("modified_point = active_point.copy()", "modified_point = active_point.copy()\n    modified_point.TAA[0] = 0"), 'fire', 'adjustRotationToMidpoint'),
     V('view-write-in-class', F, ("def gPos(self):", "def zeroPos(self):\n        p = self.TAA[0:3]\n        p[0] = 0\n\n    def gPos(self):"), 'fire', 'tm.zeroPos'),
+    V('sync-rotation-from-position', F, ("mres = mr.MatrixExp3(mr.VecToso3(self.TAA[3:6].flatten()))", "mres = mr.MatrixExp3(mr.VecToso3(self.TAA[0:3].flatten()))"), 'fire', 'tm.TAAtoTM'),
+    V('sync-last-row', F, ("self.TM = np.vstack((np.hstack((mres, self.TAA[0:3])), np.array([0, 0, 0, 1])))", "self.TM = np.vstack((np.hstack((mres, self.TAA[0:3])), np.array([0, 0, 0, 0])))"), 'fire', 'tm.TAAtoTM'),
+    V('sync-tmtotaa-swapped-halves', F, ("self.TAA = np.vstack((transformation.reshape((3, 1)), (rotationAA.reshape((3, 1)))))", "self.TAA = np.vstack((rotationAA.reshape((3, 1)), (transformation.reshape((3, 1)))))"), 'fire', 'tm.TMtoTAA'),
+    V('sync-tmtotaa-no-log', F, ("rotationAA = mr.so3ToVec(mr.MatrixLog3(rotation))", "rotationAA = mr.so3ToVec(rotation)"), 'fire', 'tm.TMtoTAA'),
     # benign twins
+    V('benign-sync-inline', F, ("mres = mr.MatrixExp3(mr.VecToso3(self.TAA[3:6].flatten()))\n        self.TM = np.vstack((np.hstack((mres, self.TAA[0:3])), np.array([0, 0, 0, 1])))", "self.TM = np.vstack((np.hstack((mr.MatrixExp3(mr.VecToso3(self.TAA[3:6].flatten())), self.TAA[0:3])), np.array([0, 0, 0, 1])))"), 'silent'),
     V('benign-sync-in-finally', F, ("self.TAA[ind] = val\n        self.TAAtoTM()\n        return self", "try:\n            self.TAA[ind] = val\n        finally:\n            self.TAAtoTM()\n        return self"), 'silent'),
     V('benign-rename-flag', F, [("refresh = 0", "dirty = 0"), ("refresh = 1", "dirty = 1"), ("if refresh == 1:", "if dirty == 1:")], 'silent'),
     V('benign-copy-method-form', F, ("copy.TM = np.copy(self.TM)", "copy.TM = self.TM.copy()"), 'silent'),
